@@ -90,3 +90,14 @@ PROPS["C06"] = {
         "tests": [T("TestC06Frames", {"checks": 5000, "shards": 4}, {"checks": 30000, "shards": 16})],
     }],
 }
+
+PROPS["C07"] = {
+    "level": "exploration",
+    "assumptions": ["schedules are sampled (worker counts, GOMAXPROCS 1/2/4/16 per shard, writer delays, race detector), not enumerated",
+                    "errors are collected for up to 20 s before a missing error is reported"],
+    "units": [{
+        "pkg": "command", "race": True,
+        "tests": [T("TestC07Pipeline", {"checks": 100, "shards": 8, "gomaxprocs": [1, 2, 4, 16], "env": {"C07_MAXN": 3000}},
+                    {"checks": 400, "shards": 16, "gomaxprocs": [1, 2, 4, 16], "env": {"C07_MAXN": 3000}})],
+    }],
+}
